@@ -9,6 +9,7 @@ import (
 	"runtime/debug"
 	"strconv"
 	"strings"
+	"time"
 
 	abci "github.com/cometbft/cometbft/abci/types"
 	sdk "github.com/cosmos/cosmos-sdk/types"
@@ -109,6 +110,7 @@ type Runner struct {
 	mod      porttypes.IBCModule // the stack packets enter through
 	instr    *Instr              // non-nil in instrumented mode
 	fullLog  bool
+	blocks   int64 // blocks elapsed in the current history (environment step "nextblock")
 }
 
 // otherSrcPort is a counterparty port identifier different from Noble's "transfer".
@@ -294,6 +296,16 @@ func emptyCtl() map[string]CtlOut {
 func (r *Runner) step(bctx sdk.Context, b string, i int, in Input) Line {
 	w := r.w
 	in.normalise()
+	if i == 1 {
+		r.blocks = 0
+	}
+	if r.blocks > 0 {
+		// later blocks of the same chain: same stores, a later header
+		h := w.base.BlockHeader()
+		h.Height += r.blocks
+		h.Time = h.Time.Add(time.Duration(r.blocks) * 6 * time.Second)
+		bctx = bctx.WithBlockHeader(h)
+	}
 	ln := Line{B: b, I: i, In: in}
 	ln.Pre = w.project(bctx)
 	ln.Obs = Obs{OrbPre: w.orbAll(bctx), OthersPre: w.othersDigest(bctx), Req: []Req{}, Xfers: []Xfer{},
@@ -658,6 +670,10 @@ func (r *Runner) doEnv(bctx sdk.Context, ln *Line) {
 			return
 		}
 		msg = &banktypes.MsgSend{FromAddress: w.acct["U"].String(), ToAddress: w.acct["esc0"].String(), Amount: sdk.NewCoins(bal)}
+	case "nextblock":
+		r.blocks++
+		ln.Res = Res{Ack: "ok"}
+		return
 	case "bigdust":
 		// somebody deposits 2^64 base units of the big denom on the orbiter account (the coins are
 		// taken from the escrow, as if they had been transferred in and sent on earlier)
